@@ -10,7 +10,7 @@ from ..absint import Interp, Outcome, subst
 from ..model import AnalysisError, ClassInfo, FuncInfo, dotted, norm, walk_no_nested
 from ..report import rule
 from ..siblings import _TelemetryEraser, first_difference, is_forwarder, normal_form
-from ..util import (calls_named, cfg_of, dict_items, is_attr, is_const, is_name, key, kw, names_in,
+from ..util import (allargs, argv, calls_named, cfg_of, dict_items, is_attr, is_const, is_name, key, kw, names_in,
                     pkg_version, site_packages_source, stdlib_source, strip_pre)
 
 DEP = "client_generators.dependencies."
@@ -191,7 +191,7 @@ def _is_body_dict(e: ast.AST, params=("query", "operation_name", "variables")) -
 
 def _json_dumps_arg(e: ast.AST) -> Optional[ast.AST]:
     if isinstance(e, ast.Call) and dotted(e.func) == "json.dumps" and e.args:
-        return e.args[0]
+        return allargs(e)[0]
     return None
 
 
@@ -210,7 +210,7 @@ def c11_r3(ctx):
             problems = []
             if not ok:
                 problems.append(f"returned call is {dotted(post.func)}, expected self.http_client.post")
-            url = kw(post, "url") or (post.args[0] if post.args else None)
+            url = kw(post, "url") or (allargs(post)[0] if allargs(post) else None)
             if url is None or norm(url) != "self.url":
                 problems.append(f"url is {norm(url) if url is not None else None}")
             content = kw(post, "content")
@@ -238,7 +238,7 @@ def c11_r3(ctx):
         problems = []
         if dotted(post.func) != "self.http_client.post":
             problems.append(f"returned call is {dotted(post.func)}")
-        url = kw(post, "url") or (post.args[0] if post.args else None)
+        url = kw(post, "url") or (allargs(post)[0] if allargs(post) else None)
         if url is None or norm(url) != "self.url":
             problems.append("url is not self.url")
         data = outs[0].deref(kw(post, "data"))
@@ -296,15 +296,15 @@ def c11_r4(ctx):
                 base = strip_pre(o.env.get(sp.id)) if o.env.get(sp.id) is not None else None
                 is_copy = base is not None and (
                     (isinstance(base, ast.Call) and dotted(base.func) == "kwargs.copy") or
-                    (isinstance(base, ast.Call) and dotted(base.func) == "dict" and base.args and is_name(base.args[0], "kwargs")) or
+                    (isinstance(base, ast.Call) and dotted(base.func) == "dict" and allargs(base) and is_name(allargs(base)[0], "kwargs")) or
                     (isinstance(base, ast.Dict) and any(kk is None and is_name(v, "kwargs") for kk, v in zip(base.keys, base.values))))
                 if not is_copy:
                     problems.append(f"mapping splatted into post is {norm(base)[:60] if base is not None else sp.id}, not a copy of kwargs "
                                     "(the caller's dict would be mutated, or the caller's other keyword arguments dropped)")
                 for m in o.muts(sp.id):
-                    if isinstance(m, ast.Call) and is_name(m.func, "<setitem>") and is_const(m.args[1], "headers"):
-                        hdr_expr = m.args[2]
-                    elif isinstance(m, ast.Call) and is_name(m.func, "<setitem>") and is_name(m.args[0], "kwargs"):
+                    if isinstance(m, ast.Call) and is_name(m.func, "<setitem>") and is_const(allargs(m)[1], "headers"):
+                        hdr_expr = allargs(m)[2]
+                    elif isinstance(m, ast.Call) and is_name(m.func, "<setitem>") and is_name(allargs(m)[0], "kwargs"):
                         problems.append("the caller's kwargs mapping is mutated")
         for m in o.muts("kwargs"):
             problems.append(f"the caller's kwargs mapping is mutated: {norm(m)[:60]}")
@@ -325,11 +325,11 @@ def c11_r4(ctx):
             if hname:
                 for m in o.muts(hname):
                     if isinstance(m, ast.Call) and isinstance(m.func, ast.Attribute) and m.func.attr == "update" and m.args:
-                        sources.append("caller" if "kwargs" in names_in(m.args[0]) and "headers" in norm(m.args[0]) else "other")
-                    elif isinstance(m, ast.Call) and is_name(m.func, "<setitem>") and is_const(m.args[1], "Content-Type"):
-                        sources.append("default" if is_const(m.args[2], "application/json") else "default-wrong")
-                    elif isinstance(m, ast.Call) and isinstance(m.func, ast.Attribute) and m.func.attr == "setdefault" and m.args and is_const(m.args[0], "Content-Type"):
-                        sources.insert(0, "default" if len(m.args) > 1 and is_const(m.args[1], "application/json") else "default-wrong")
+                        sources.append("caller" if "kwargs" in names_in(allargs(m)[0]) and "headers" in norm(allargs(m)[0]) else "other")
+                    elif isinstance(m, ast.Call) and is_name(m.func, "<setitem>") and is_const(allargs(m)[1], "Content-Type"):
+                        sources.append("default" if is_const(allargs(m)[2], "application/json") else "default-wrong")
+                    elif isinstance(m, ast.Call) and isinstance(m.func, ast.Attribute) and m.func.attr == "setdefault" and allargs(m) and is_const(allargs(m)[0], "Content-Type"):
+                        sources.insert(0, "default" if len(allargs(m)) > 1 and is_const(allargs(m)[1], "application/json") else "default-wrong")
             if "default-wrong" in sources:
                 problems.append("the Content-Type default is not application/json")
             if "default" not in sources:
@@ -445,9 +445,10 @@ def c11_r5(ctx):
                     probs.append(f"list branch must append exactly the recursive result per element: {[norm(x)[:100] for x in m]}")
                 else:
                     c = calls[0]
-                    parts = _fmt_parts(c.args[0]) if c.args else None
+                    ca = allargs(c)
+                    parts = _fmt_parts(ca[0]) if ca else None
                     elem = "<elem>(enumerate(obj))"
-                    if parts != ["path", "'.'", f"{elem}[0]"] or len(c.args) != 2 or norm(c.args[1]) != f"{elem}[1]":
+                    if parts != ["path", "'.'", f"{elem}[0]"] or len(ca) != 2 or norm(ca[1]) != f"{elem}[1]":
                         probs.append(f"recursive call is {norm(c)[:140]}; expected separate_files(f'{{path}}.{{index}}', value) over enumerate(obj)")
         ctx.check(not probs, key(sep, "list"), "; ".join(probs), sep.loc(), okmsg=f"{tag}: list elements recursed with path.index")
 
@@ -466,14 +467,15 @@ def c11_r5(ctx):
             else:
                 m = o.muts(name)
                 elem = "<elem>(obj.items())"
-                okm = len(m) == 1 and isinstance(m[0], ast.Call) and is_name(m[0].func, "<setitem>") and is_name(m[0].args[0], name) and norm(m[0].args[1]) == f"{elem}[0]"
+                okm = len(m) == 1 and isinstance(m[0], ast.Call) and is_name(m[0].func, "<setitem>") and is_name(allargs(m[0])[0], name) and norm(allargs(m[0])[1]) == f"{elem}[0]"
                 calls = [c for c in ast.walk(m[0]) if isinstance(c, ast.Call) and is_name(c.func, "separate_files")] if okm else []
                 if not okm or len(calls) != 1:
                     probs.append(f"dict branch must store the recursive result under the same key: {[norm(x)[:100] for x in m]}")
                 else:
                     c = calls[0]
-                    parts = _fmt_parts(c.args[0]) if c.args else None
-                    if parts != ["path", "'.'", f"{elem}[0]"] or len(c.args) != 2 or norm(c.args[1]) != f"{elem}[1]":
+                    ca = allargs(c)
+                    parts = _fmt_parts(ca[0]) if ca else None
+                    if parts != ["path", "'.'", f"{elem}[0]"] or len(ca) != 2 or norm(ca[1]) != f"{elem}[1]":
                         probs.append(f"recursive call is {norm(c)[:140]}; expected separate_files(f'{{path}}.{{key}}', value) over obj.items()")
         ctx.check(not probs, key(sep, "dict"), "; ".join(probs), sep.loc(), okmsg=f"{tag}: dict values recursed with path.key")
 
@@ -742,13 +744,13 @@ def c12_r2(ctx):
             catches = lambda handler, exc: handler in ("ValueError", "Exception", "BaseException", exc)
             return Interp(fi, _get_data_atom(resp, scn), raises=raises, catches=catches).run()
         o = collect(_scn('non-2xx'))
-        good = len(o) == 1 and isinstance(o[0].value, ast.Call) and norm(kw(o[0].value, "status_code") or o[0].value.args[0] if (o[0].value.args or kw(o[0].value, "status_code")) else ast.Constant(0)) == f"{resp}.status_code" \
-            and norm((kw(o[0].value, "response") or (o[0].value.args[1] if len(o[0].value.args) > 1 else ast.Constant(0)))) == resp
+        good = len(o) == 1 and isinstance(o[0].value, ast.Call) and norm(kw(o[0].value, "status_code") or allargs(o[0].value)[0] if (o[0].value.args or kw(o[0].value, "status_code")) else ast.Constant(0)) == f"{resp}.status_code" \
+            and norm((kw(o[0].value, "response") or (allargs(o[0].value)[1] if len(allargs(o[0].value)) > 1 else ast.Constant(0)))) == resp
         ctx.check(good, key(fi, "http-error-args"), f"HTTP error must carry status_code={resp}.status_code and response={resp}; got {[x.text() for x in o]}", fi.loc(),
                   okmsg=f"{tag}: HTTP error carries status and response")
         for scn, jr, label in ((_scn("2xx, body not JSON"), True, "decode"), (_scn("2xx, JSON not an object"), False, "shape")):
             o = collect(scn, jr)
-            good = len(o) == 1 and isinstance(o[0].value, ast.Call) and norm(kw(o[0].value, "response") or (o[0].value.args[0] if o[0].value.args else ast.Constant(0))) == resp
+            good = len(o) == 1 and isinstance(o[0].value, ast.Call) and norm(kw(o[0].value, "response") or (allargs(o[0].value)[0] if allargs(o[0].value) else ast.Constant(0))) == resp
             ctx.check(good, key(fi, f"invalid-response-args-{label}"), f"invalid-response error ({label}) must carry response={resp}; got {[x.text() for x in o]}", fi.loc(),
                       okmsg=f"{tag}: invalid-response error ({label}) carries the response")
         o = collect(_scn('2xx, data and errors'))
@@ -756,8 +758,8 @@ def c12_r2(ctx):
         if len(o) == 1 and isinstance(o[0].value, ast.Call):
             c = o[0].value
             if dotted(c.func) == "GraphQLClientGraphQLMultiError.from_errors_dicts":
-                e = kw(c, "errors_dicts") or (c.args[0] if c.args else None)
-                d = kw(c, "data") or (c.args[1] if len(c.args) > 1 else None)
+                e = kw(c, "errors_dicts") or (allargs(c)[0] if allargs(c) else None)
+                d = kw(c, "data") or (allargs(c)[1] if len(allargs(c)) > 1 else None)
                 good = e is not None and d is not None and norm(strip_pre(e)) in (f"{J}.get('errors')", f"{J}['errors']") and norm(strip_pre(d)) in (f"{J}.get('data')",)
         ctx.check(good, key(fi, "multi-error-args"), f"multi-error must be built from_errors_dicts(errors_dicts=<errors member>, data=<data member>); got {[x.text() for x in o]}", fi.loc(),
                   okmsg=f"{tag}: multi-error carries every error dict and partial data")
@@ -867,7 +869,7 @@ def c13_r1(ctx):
                     probs.append(f"order violated: {what} (not a dominance relation)")
             # the ack handler call consumes websocket.recv()
             c = calls_named(a.ast, f"self._handle_ws_message{suf}")[0]
-            first = kw(c, "message") or (c.args[0] if c.args else None)
+            first = kw(c, "message") or (allargs(c)[0] if allargs(c) else None)
             if first is None or "websocket.recv()" not in norm(first):
                 probs.append("the ack wait does not consume websocket.recv()")
             # subscribe not in a loop
@@ -954,8 +956,8 @@ def c13_r2(ctx):
                         if isinstance(kk, ast.Constant):
                             written[kk.value] = base
                 for m in (outs[0].muts(k.value.id) if outs else []):
-                    if isinstance(m, ast.Call) and is_name(m.func, "<setitem>") and isinstance(m.args[1], ast.Constant):
-                        written[m.args[1].value] = m
+                    if isinstance(m, ast.Call) and is_name(m.func, "<setitem>") and isinstance(allargs(m)[1], ast.Constant):
+                        written[allargs(m)[1].value] = m
         for name in sorted(written):
             k_ = key(fi, f"ws_connect keyword {name}")
             if name in accepted:
@@ -965,10 +967,10 @@ def c13_r2(ctx):
                              f"(connect.__init__/create_connection parameters: {sorted(accepted)[:12]}...)", fi.loc(c))
         sp = written.get("subprotocols")
         sp_ok = sp is not None and isinstance(sp, ast.List) and len(sp.elts) == 1 and isinstance(sp.elts[0], ast.Call) \
-            and is_name(sp.elts[0].func, "Subprotocol") and len(sp.elts[0].args) == 1
+            and is_name(sp.elts[0].func, "Subprotocol") and len(allargs(sp.elts[0])) == 1
         val = None
         if sp_ok:
-            a0 = sp.elts[0].args[0]
+            a0 = allargs(sp.elts[0])[0]
             if isinstance(a0, ast.Constant):
                 val = a0.value
             elif isinstance(a0, ast.Name):
@@ -979,7 +981,7 @@ def c13_r2(ctx):
         ctx.check(val == "graphql-transport-ws", key(fi, "subprotocol"), f"subprotocols must be [Subprotocol('graphql-transport-ws')], got {norm(sp) if sp is not None else None} (= {val!r})", fi.loc(c),
                   okmsg=f"{tag}: subprotocol graphql-transport-ws")
         # url, headers and origin provenance
-        url_ok = c.args and norm(c.args[0]) == "self.ws_url"
+        url_ok = allargs(c) and norm(allargs(c)[0]) == "self.ws_url"
         ctx.check(bool(url_ok), key(fi, "ws_url"), "socket is not opened on self.ws_url", fi.loc(c), okmsg=f"{tag}: connects to self.ws_url")
         hdr = None
         for name, node in written.items():
@@ -1084,7 +1086,7 @@ def c13_r3(ctx):
         def is_multi(o):
             if not (o.kind == "raise" and o.exc == "GraphQLClientGraphQLMultiError" and not o.effects and isinstance(o.value, ast.Call)):
                 return False
-            e = kw(o.value, "errors_dicts") or (o.value.args[0] if o.value.args else None)
+            e = kw(o.value, "errors_dicts") or (allargs(o.value)[0] if allargs(o.value) else None)
             return e is not None and norm(strip_pre(e)) == P
         expect("error", run("ERROR"), is_multi, "raise the GraphQL multi-error built from the frame's payload")
         for m in ("CONNECTION_INIT", "SUBSCRIBE", "CONNECTION_ACK"):
@@ -1125,9 +1127,9 @@ def c13_r4(ctx):
                             good = len(ys) == 1 and len(calls) == 1 and dotted(calls[0].func) == hcall and ys[0].startswith(hcall + "(")
                             if good:
                                 c = calls[0]
-                                m = kw(c, "message") or (c.args[0] if c.args else None)
-                                w = kw(c, "websocket") or (c.args[1] if len(c.args) > 1 else None)
-                                good = m is not None and is_name(m, mv) and w is not None and is_name(w, "websocket") and kw(c, "expected_type") is None and len(c.args) <= 2
+                                m = kw(c, "message") or (allargs(c)[0] if allargs(c) else None)
+                                w = kw(c, "websocket") or (allargs(c)[1] if len(allargs(c)) > 1 else None)
+                                good = m is not None and is_name(m, mv) and w is not None and is_name(w, "websocket") and kw(c, "expected_type") is None and len(c.args) <= 2 and {k.arg for k in c.keywords} <= {"message", "websocket", "root_span"}
                             if not good:
                                 probs.append(f"a frame with data must be yielded exactly once as the handler's result; yields {ys}")
                         else:
@@ -1156,7 +1158,7 @@ def c13_r5(ctx):
             else:
                 o = outs[0]
                 send = o.effects[0]
-                arg = send.args[0] if send.args else None
+                arg = allargs(send)[0] if allargs(send) else None
                 inner = _json_dumps_arg(arg) if arg is not None else None
                 pname = inner.id if isinstance(inner, ast.Name) else None
                 inner_s = strip_pre(o.deref(inner)) if inner is not None else None
@@ -1166,8 +1168,8 @@ def c13_r5(ctx):
                     items = dict_items(inner_s)
                     muts = o.muts(pname) if pname else []
                     for m in muts:
-                        if isinstance(m, ast.Call) and is_name(m.func, "<setitem>") and isinstance(m.args[1], ast.Constant):
-                            items[m.args[1].value] = m.args[2]
+                        if isinstance(m, ast.Call) and is_name(m.func, "<setitem>") and isinstance(allargs(m)[1], ast.Constant):
+                            items[allargs(m)[1].value] = allargs(m)[2]
                     if norm(items.get("type", ast.Constant(0))) != f"{_MT}.CONNECTION_INIT.value":
                         probs.append(f"type is {norm(items.get('type')) if 'type' in items else None}")
                     if configured and norm(items.get("payload", ast.Constant(0))) != "self.ws_connection_init_payload":
@@ -1188,7 +1190,7 @@ def c13_r5(ctx):
                 probs.append(f"expected exactly one send, got {[o.text() for o in outs]}")
             else:
                 o = outs[0]
-                inner = _json_dumps_arg(o.effects[0].args[0]) if o.effects[0].args else None
+                inner = _json_dumps_arg(allargs(o.effects[0])[0]) if allargs(o.effects[0]) else None
                 pname = inner.id if isinstance(inner, ast.Name) else None
                 inner_s = strip_pre(o.deref(inner)) if inner is not None else None
                 if not isinstance(inner_s, ast.Dict):
@@ -1205,8 +1207,8 @@ def c13_r5(ctx):
                     else:
                         pit = dict_items(pl)
                         for m in (o.muts(pname) if pname else []):
-                            if isinstance(m, ast.Call) and is_name(m.func, "<setitem>") and norm(m.args[0]) == f"{pname}['payload']" and isinstance(m.args[1], ast.Constant):
-                                pit[m.args[1].value] = m.args[2]
+                            if isinstance(m, ast.Call) and is_name(m.func, "<setitem>") and norm(allargs(m)[0]) == f"{pname}['payload']" and isinstance(allargs(m)[1], ast.Constant):
+                                pit[allargs(m)[1].value] = allargs(m)[2]
                         if norm(pit.get("query", ast.Constant(0))) != "query":
                             probs.append("payload.query is not the query")
                         if norm(pit.get("operationName", ast.Constant(0))) != "operation_name":
